@@ -3,6 +3,7 @@ package lib
 import (
 	"crypto/sha256"
 	"crypto/sha512"
+	"fmt"
 	"math"
 	"math/big"
 	"unicode/utf8"
@@ -335,4 +336,67 @@ func (v *Val) KindMask() int {
 		m |= e.V.KindMask()
 	}
 	return m
+}
+
+// GenWide returns a container that is wide rather than deep: a map or list of n entries whose children are
+// mostly scalars, with containers planted at late positions (so that anything that depends on the *position*
+// of an entry among its siblings — depth or budget bookkeeping, sort stability, buffer reuse — is exercised).
+// Keys come from a small alphabet in a few lengths, so many keys have equal length and share prefixes.
+// shape: 0 = map, 1 = list.  n is the number of entries (keys are distinct by construction).
+func (r *Rng) GenWide(cfg *GenCfg, shape int, n int) *Val {
+	child := func(i int) *Val {
+		late := i >= n-3 || i == n/2 || r.Intn(97) == 0
+		if late {
+			switch r.Intn(3) {
+			case 0:
+				return &Val{Kind: KList, L: []*Val{Int(int64(i)), Str("z")}}
+			case 1:
+				return &Val{Kind: KMap, M: []Entry{{"k", Int(int64(i))}, {"", &Val{Kind: KList}}}}
+			default:
+				return &Val{Kind: KList, L: []*Val{&Val{Kind: KMap, M: []Entry{{"d", Null()}}}}}
+			}
+		}
+		switch r.Intn(4) {
+		case 0:
+			return Int(int64(i))
+		case 1:
+			return Str(string(rune('a' + i%26)))
+		case 2:
+			return Bool(i%2 == 0)
+		default:
+			return Null()
+		}
+	}
+	if shape == 1 {
+		v := &Val{Kind: KList}
+		for i := 0; i < n; i++ {
+			v.L = append(v.L, child(i))
+		}
+		return v
+	}
+	v := &Val{Kind: KMap}
+	seen := map[string]bool{}
+	alpha := "abAB\x7f\xc3\x00z"
+	for i := 0; len(v.M) < n; i++ {
+		ln := 1 + r.Intn(3)
+		if i%5 == 0 {
+			ln = 2
+		}
+		k := ""
+		for j := 0; j < ln; j++ {
+			k += string(alpha[r.Intn(len(alpha))])
+		}
+		if !cfg.BadUTF8 && !validUTF8(k) {
+			k = fmt.Sprintf("k%d", i)
+		}
+		if seen[k] {
+			k = fmt.Sprintf("%s%d", k[:1], i)
+		}
+		if seen[k] {
+			continue
+		}
+		seen[k] = true
+		v.M = append(v.M, Entry{k, child(len(v.M))})
+	}
+	return v
 }
